@@ -25,6 +25,18 @@ TITLES = {
 
 # property -> dict(level, text, note, technique, design_ref)
 CHECKS = {
+    "C01": dict(
+        level="model_checking",
+        text="Writer.tla models where rows go (64-row chunks, lazy row-group flush at MaxRowsPerRowGroup, explicit "
+             "row-group and page flushes, close) and is model-checked for conservation / limits / page partition. TLC "
+             "simulations produce call histories x option vectors; the harness executes them through three write APIs on "
+             "a 20-field row type with boundary values and reads the file back three ways; WriterMon.tla replays the "
+             "logged calls through the same TLA+ operators and compares row groups, order and bit-level row equality.",
+        note="Value fidelity is observed through boundary-value concretisation (tokens), not enumerated by TLC; one static "
+             "row type (schema shapes are C03's universe); histories <=7 calls.",
+        technique="TLA+ model (TLC exhaustive) + TLC-simulated histories replayed on the code + TLC trace monitor sharing the model's operators",
+        design_ref="DESIGN.md section 5 C01",
+    ),
     "C08": dict(
         level="model_checking",
         text="PageReader.tla, an implementation-shaped TLA+ model of FilePages.SeekToRow/ReadPage (one action per "
